@@ -352,9 +352,28 @@ def _range_loop_index(fn, T, recv, idx):
     return "index is the item of a `for i in a..N` loop with N bounded by the length of the indexed sequence" if bounded(end) else None
 
 
+def _split_within_len(fn, T, bb, recv, mid):
+    """v.split_at(m) / split_at_mut(m) with m = min(.., v.len(), ..): m <= len"""
+    t = fn.blocks[bb]["t"]
+    if t["k"] != "call" or "decl" not in t["f"] or fn.callee(t)[0].qname not in ("[T]::split_at", "[T]::split_at_mut"):
+        return None
+    if recv is None or mid is None or not _stable(T, recv):
+        return None
+
+    def bounded(e, depth=0):
+        if depth > 4:
+            return False
+        if e[0] == "call" and e[1].rsplit("::", 1)[-1] == "len" and len(e[2]) == 1 and e[2][0] == recv:
+            return True
+        if e[0] == "call" and e[1] in ("std::cmp::min", "std::cmp::Ord::min") and len(e[2]) == 2:
+            return any(bounded(x, depth + 1) for x in e[2])
+        return False
+    return "split point is min(.., len of the slice, ..): never beyond the end" if bounded(mid) else None
+
+
 def _guarded_index(fn, T, bb, recv, idx):
     """v[i] dominated by i < v.len() (or v.len() > i)"""
-    g = _range_loop_index(fn, T, recv, idx)
+    g = _range_loop_index(fn, T, recv, idx) or _split_within_len(fn, T, bb, recv, idx)
     if g:
         return g
     if recv is None or idx is None or not _stable(T, recv, idx):
